@@ -37,7 +37,10 @@ def gen_case(r, cid, tier):
     fn = lambda: r.choice(["smooth", "poly", "hash", "affine"])
 
     def observe(tag):
-        return ["probe g %d %d" % (r.randint(2, 5), r.randint(1, 10 ** 6)), "dump g meta points values coef qw hsupport hint", "integ g",
+        pr = "probe g %d %d" % (r.randint(2, 5), r.randint(1, 10 ** 6))
+        if r.random() < 0.12:
+            pr = "probe g %d %d only" % (r.choice([32, 64, 31, 33]), r.randint(1, 10 ** 6))   # block boundaries of the sparse matrix assembly
+        return [pr, "dump g meta points values coef qw hsupport hint", "integ g",
                 "eval g x: @", "evalb g x: @", "hbasis g x: @", "hsparse g x: @", "weights g", "diffall g"]
     lines += ["load g " + fn()] + observe("loaded")
     nested = not (fam == "global" and spec["rule"] in gl.GLOBAL_NONNESTED)
@@ -51,6 +54,12 @@ def gen_case(r, cid, tier):
                 lines += ["merge g"] + observe("merged")
         elif k < 0.6:
             lines += ["setcoef g " + fn(), "evalpts g"] + observe("setcoef")
+        elif k < 0.68 and fam == "localp":
+            # removing points by coefficient can leave points without parents (extra roots of the evaluation tree)
+            # (documented: after a removal only get/evaluate/IO calls are defined, and the surrogate keeps the retained coefficients,
+            #  it no longer interpolates the stored values: the history ends here and only the coefficient-based routes are compared)
+            lines += [r.choice(["remtol g %s -1" % vlib.hexf(r.choice([1e-3, 1e-2, 1e-1])), "remcount g %d -1" % r.randint(2, 12)])] + observe("removed")
+            break
         elif k < 0.75 and nested and fam != "global":
             lines += ["begin g"]
             if fam in ("localp", "wavelet"):
@@ -94,10 +103,11 @@ def check_obs(res, cid, spec, script, obs, stats, setcoef_expect):
         if e > TOL:
             viol("evaluate-vs-batch", "evaluate and evaluateBatch differ by %.3g" % e)
     loaded_all = (nl == n and nl > 0 and outs > 0)
+    interpolating = loaded_all and not obs.get("removed")     # after removePointsByHierarchicalCoefficient the surrogate is not the interpolant of the values
     hb = obs.get("hbasis")
     # (2) evaluate == interpolation weights . values
     iw = obs.get("iwall")
-    if ev is not None and iw is not None and loaded_all and len(iw) == nx * n and len(vals) == n * outs:
+    if ev is not None and iw is not None and interpolating and len(iw) == nx * n and len(vals) == n * outs:
         for xi in range(nx):
             for k in range(outs):
                 s = sum(iw[xi * n + i] * vals[i * outs + k] for i in range(n))
@@ -165,7 +175,7 @@ def check_obs(res, cid, spec, script, obs, stats, setcoef_expect):
         for k in range(outs):
             s = sum(qw[i] * vals[i * outs + k] for i in range(n))
             cond = sum(abs(qw[i] * vals[i * outs + k]) for i in range(n))
-            e = abs(s - ig[k]) / max(1.0, cond)
+            e = abs(s - ig[k]) / max(1.0, cond) if interpolating else 0.0
             stats["max"]["integ-qw"] = max(stats["max"].get("integ-qw", 0), e)
             if e > TOL:
                 viol("integrate-vs-quadrature", "integrate() and quadrature weights x values differ by %.3g" % e)
@@ -181,7 +191,7 @@ def check_obs(res, cid, spec, script, obs, stats, setcoef_expect):
                     return
     # (7) differentiate == differentiation weights . values
     dw, da = obs.get("dwall"), obs.get("diffall")
-    if dw is not None and da is not None and loaded_all and len(dw) == nx * n * d and len(da) == nx * outs * d:
+    if dw is not None and da is not None and interpolating and len(dw) == nx * n * d and len(da) == nx * outs * d:
         for xi in range(nx):
             for k in range(outs):
                 for j in range(d):
@@ -246,7 +256,7 @@ def run(res, tier, seed, replay_script=None):
         spec = specs[cid]
         fam, d, outs = spec["family"], spec["dims"], spec["outs"]
         fam_count[fam] = fam_count.get(fam, 0) + 1
-        obs, nobs, pend_setcoef = {}, 0, None
+        obs, nobs, pend_setcoef, removed = {}, 0, None, False
         for st in steps:
             t = st.cmd.split()
             if st.exc is not None and (st.exc[0] == "hang" or st.exc[0].startswith("crash") or st.exc[0].startswith("other")):
@@ -254,8 +264,11 @@ def run(res, tier, seed, replay_script=None):
                 res.violation(("no-return:" if st.exc[0] == "hang" else "crash:") + t[0], "%s -> %s [%s]" % (st.cmd, st.exc, scripts[cid][1]),
                               {"kind": "impl-counterexample", "script": scripts[cid]})
                 break
+            if t[0] in ("remtol", "remcount") and st.exc is None:
+                removed = True
+                stats["removals"] = stats.get("removals", 0) + 1
             if t[0] == "probe":
-                obs = {"probe": st.obs.get("probe", [])}
+                obs = {"probe": st.obs.get("probe", []), "removed": removed}
             elif t[0] == "setcoef" and st.exc is None:
                 pend_setcoef = t[2]
             elif t[0] == "evalpts" and pend_setcoef is not None:
@@ -290,7 +303,14 @@ def run(res, tier, seed, replay_script=None):
                             stats["max"]["setcoef-values"] = max(stats["max"].get("setcoef-values", 0), e)
                             if e > (1e-7 if fam == "wavelet" else TOL):
                                 stats["violations"] += 1
-                                res.violation("setcoef-values:" + fam, "after setHierarchicalCoefficients the stored values differ from the surrogate at the nodes by %.3g [%s]" % (e, scripts[cid][1]),
+                                key = "setcoef-values:" + fam
+                                ta, tb = obs.get("ta"), obs.get("tb")
+                                if fam == "wavelet" and ta and len(pts) == npt * d:
+                                    # which nodes fail?  (known finding shared with C01: nodes on the boundary of a transformed domain)
+                                    bad = [i for i in range(npt) if max(abs(y[i * outs + k] - vals[i * outs + k]) for k in range(outs)) / sc_ > 1e-7]
+                                    if bad and all(any(pts[i * d + j] in (ta[j], tb[j]) for j in range(d)) for i in bad):
+                                        key = "setcoef-values-wavelet-boundary-node-under-transform"
+                                res.violation(key, "after setHierarchicalCoefficients the stored values differ from the surrogate at the nodes by %.3g [%s]" % (e, scripts[cid][1]),
                                               {"kind": "impl-counterexample", "script": scripts[cid]})
                         stats["setcoef"] += 1
                     pend_setcoef = None
